@@ -354,6 +354,14 @@ def _accumulation(ctx, R):
             # every pulled element is appended before the next pull
             again = eb in ib.reachable(ib.succ(eb), avoid=[pb])
             ctx.check(R, "accumulate:every-chunk-is-appended", not again, "a path from one pull of the stream to the next that skips the append exists: %s" % again, (ib, eb))
+        # Added after adversary change C11-K (`while let Some(chunk) = stream.try_next().await?` became `if let`: only the first two
+        # frames were read, a three-chunk body arrived truncated with a 200 and later frames were never counted against the limit):
+        # after a chunk has been appended nothing is returned before the stream is pulled again -- the buffer is returned only once
+        # the stream has reported its end
+        okbbs = [b for b, _, s_ in ib.aggregates(r"^std::result::Result$", "Ok") if b in ib.reachable(0) and s_["pl"]["l"] == 0]
+        early = [b for b in okbbs if b in ib.reachable(ib.succ(pb), avoid=[eb for _, eb, _ in pulls])]
+        ctx.check(R, "accumulate:stream-read-to-its-end", bool(pulls) and not early,
+                  "Ok(..) returns reachable after an append without pulling the stream again: %d (the loop must go back to the pull; only its end leads to the return)" % len(early), (ib, early[0] if early else pb))
         if root is None:
             return
         rs = ib.slice({"l": root, "p": []})
@@ -674,6 +682,36 @@ def r3_request_context(ctx):
         s = f.slice(t["args"][1])
         ok = (s.has_call(r"Acceptor::accept$") or s.has_call(r"remote_addr$|peer_addr$")) and not s.reads_field("local_addr")
         ctx.check(R, "service:peer-from-accept:%s" % ("tls" if s.has_call(r"HttpsAcceptor") else "plain"), ok, "argument derives from accept()/remote_addr(): %s" % ok, (f, bb))
+    # Added after adversary change C09-L (the TLS acceptor queued accepted peers in a VecDeque and gave each finished negotiation the
+    # front of the queue: negotiations finish in completion order, so a connection whose handshake overtook another's was labelled with
+    # the other client's address): the address a TlsConn is built with is the one accepted together with its socket -- it comes
+    # straight from that HttpAcceptor::accept() (captured by the closure that wraps the negotiated stream), through no collection
+    ns = ds.one(r"^server::HttpsAcceptor::new_stream$")
+    tls_sites = []
+    if ns is not None:
+        for g in [ds.body_of(ns)] + ds.descendants(ds.body_of(ns)):
+            for bb, t in g.live_calls(r"^server::TlsConn::new$"):
+                tls_sites.append((g, bb, t))
+    ctx.check(R, "tls:conn-sites", len(tls_sites) >= 1, "TlsConn::new call sites under HttpsAcceptor::new_stream: %d" % len(tls_sites), ns, nontrivial=False)
+    # (the accepted pair reaches the arm through select!'s output value, whose slice includes the machinery of the select itself)
+    okfrom = ASYNC + PIN + [r"^server::HttpAcceptor::accept$", r"^std::future::poll_fn$", r"^futures::StreamExt::next$", r"^futures::stream::FuturesUnordered::<Fut>::new$",
+                            r"^std::default::Default::default$", r"^tokio::macros::support::", r"tokio::sync::Mutex::<T>::lock$", r"TlsAcceptor::accept$"]
+    for g, bb, t in tls_sites:
+        a = g.slice(t["args"][1])
+        if a.has_call(r"^server::HttpAcceptor::accept$"):
+            ok = not callee_allow(a, okfrom) and not _consts(a)
+            how = "from accept() in the same body, other operations: %s" % sorted(set(x[0] for x in callee_allow(a, okfrom)))
+        else:
+            # a closure: the address is a capture; the captured value, in the function that builds the closure, comes from accept()
+            par = ds.F.get(g.raw.get("parent"))
+            ok, how = False, "not derived from HttpAcceptor::accept()"
+            if a.params() == [1] and not a.callees and not _consts(a) and par is not None:
+                caps = [o for b2, i2, st2 in par.stmts() if st2["rv"]["rv"] == "agg" and st2["rv"].get("agg") in ("closure", "coroutine") and st2["rv"].get("def") == g.id
+                        for o in st2["rv"]["ops"] if o.get("k") in ("move", "copy") and "SocketAddr" in (par.local_ty(o["pl"]["l"]) or "")]
+                sls = [par.slice(o) for o in caps]
+                ok = len(caps) == 1 and all(x.has_call(r"^server::HttpAcceptor::accept$") and not callee_allow(x, okfrom) for x in sls)
+                how = "captured by the closure wrapping the negotiated stream; the capture comes from accept() with other operations %s" % sorted(set(y[0] for x in sls for y in callee_allow(x, okfrom)))
+        ctx.check(R, "tls:peer-is-the-one-accepted-with-the-socket", ok, "TlsConn::new(stream, addr): addr %s" % how, (g, bb))
     mf = ds.one(r"^server::ServerConnectionHandler::<C>::make_http_request_handler$")
     if mf is not None:
         for bb, t in mf.live_calls(r"ServerRequestHandler::<C>::new$"):
